@@ -651,6 +651,38 @@ func genFocusCluster(rng *rand.Rand, o genOpts, focus int, bare bool) *Cluster {
 
 func pick(rng *rand.Rand, opts ...[]string) []string { return opts[rng.Intn(len(opts))] }
 
+// flipIPBlock rewrites one ipBlock peer of the policy so that an address block changes sides: "C except X" becomes
+// "X", and a plain "X" becomes "<wider block> except X" - the element X stays in the compiled hash:net set and only
+// its nomatch flag has to change.
+func flipIPBlock(rng *rand.Rand, p *Policy) bool {
+	var peers []*Peer
+	for _, rules := range [][]Rule{p.Ingress, p.Egress} {
+		for ri := range rules {
+			for pi := range rules[ri].Peers {
+				if rules[ri].Peers[pi].CIDR != "" {
+					peers = append(peers, &rules[ri].Peers[pi])
+				}
+			}
+		}
+	}
+	if len(peers) == 0 {
+		return false
+	}
+	peer := peers[rng.Intn(len(peers))]
+	if len(peer.Except) > 0 {
+		peer.CIDR, peer.Except = peer.Except[rng.Intn(len(peer.Except))], nil
+		return true
+	}
+	base, bits, ok := cidr4(peer.CIDR)
+	if !ok || bits < 9 {
+		return false
+	}
+	wide := bits - 1 - rng.Intn(minInt(8, bits-8))
+	peer.Except = []string{fmt.Sprintf("%s/%d", ipStr(base&maskOf(bits)), bits)}
+	peer.CIDR = fmt.Sprintf("%s/%d", ipStr(base&maskOf(wide)), wide)
+	return true
+}
+
 // mutateCluster derives an "after" state from a "before" state. keepPolicies: policy names persist (their specs may
 // change), so no policy chain becomes stale.
 func mutateCluster(rng *rand.Rand, b *Cluster, o genOpts, keepPolicies bool) *Cluster {
@@ -691,6 +723,8 @@ func mutateCluster(rng *rand.Rand, b *Cluster, o genOpts, keepPolicies bool) *Cl
 			np := genPolicy(rng, c, p.Name)
 			np.NS = p.NS
 			p = np
+		case r < 0.8:
+			flipIPBlock(rng, &p)
 		}
 		pols = append(pols, p)
 	}
